@@ -73,6 +73,60 @@ CHECKS = {
         note=NOTE_COMMON,
         technique="Lean 4 proof (corollaries of the equality theorems) + correspondence check + iteration oracle",
     ),
+    "C06": dict(
+        category="proof",
+        text=("Lean theorems (Edn.Properties.C06) over an inductive specification of literal content (plain bytes and the escapes of the "
+              "build's escape set, with the bytes they denote): the scan stops exactly at the closing quote of any spelled content and "
+              "reports an escape exactly when the content has a backslash; reading the literal and fetching it returns exactly the denoted "
+              "bytes (so the length is exact with embedded NUL); content without escapes is returned as is; an undefined escape is an "
+              "access-time error; edn_string_equals agrees with the returned bytes. In the model a string is the byte list the accessor "
+              "returns, so stability and exact length hold by construction there; the correspondence run checks the real accessor: all literals "
+              "of length <=5 (6 thorough) over 9 byte classes, lengths to 300 with quote/backslash/escape at every offset, random escape mixes "
+              "per configuration, each string fetched twice (same pointer, same length, NUL after the end) and get/get/equals in all orders, "
+              "against a Python decoder."),
+        design_ref="DESIGN.md section 6, C06",
+        note=NOTE_COMMON + " Pointer identity of repeated edn_string_get calls is only observable on the real code (checked by the harness).",
+        technique="Lean 4 proof (induction over the content derivation) + correspondence check + reference decoder",
+    ),
+    "C11": dict(
+        category="proof",
+        text=("Lean theorems (Edn.Properties.C11) prove the position half for every input and offset: the line-feed index is complete and "
+              "strictly ascending, binary_search_line finds the last line feed before an offset, and line/column equal 1 + number of line "
+              "feeds before the offset and 1 + distance from the byte after the last of them. The value-range half (ranges inside the input, "
+              "enclosing ordered/disjoint child ranges, re-reading a range yields the same sub-tree; error ranges 0<=start<=end<=length) is "
+              "decided on the real library by an oracle over generated, extension-syntax, corrupted and multi-line documents, and tied to the "
+              "model by the correspondence run (which compares every range and error position)."),
+        design_ref="DESIGN.md section 6, C11",
+        note=NOTE_COMMON + " Only the line/column arithmetic is a theorem so far; the value-range statements are translation-validated against the model and oracle-checked, not yet proved.",
+        technique="Lean 4 proof (binary-search invariant, sorted-index lemmas) + correspondence check + range/re-read oracle",
+    ),
+    "C14": dict(
+        category="proof",
+        text=("Lean theorems (Edn.Properties.C14): for every sequence of register / re-register / unregister calls the 16-bucket chained reader "
+              "registry and the external-type list answer lookups exactly like the abstract map `most recent registration or none`; the "
+              "reader's step for a tagged element is characterised (no registry or discard mode: generic tagged value and no handler call; "
+              "registered: exactly one call appended after the inner value's calls, handler failure is the result; unregistered: the selected "
+              "default). Tied to the code by all operation sequences up to length 4 (5 thorough) over 4 tags including a bucket-colliding "
+              "pair x 2 handlers on both tables, and by generated tagged documents under 3 default modes x {registry, none}, with discards, "
+              "checked against an independent Python re-implementation of dispatch on the passthrough tree (call log in post-order)."),
+        design_ref="DESIGN.md section 6, C14",
+        note=NOTE_COMMON + " Handlers are fixed mirrored functions in harness and driver; the theorems are parametric in the handler functions.",
+        technique="Lean 4 proof (refinement to an abstract map, chain invariants) + correspondence check + dispatch oracle",
+    ),
+    "C15": dict(
+        category="proof",
+        text=("Lean theorems (Edn.Properties.C15), by induction over arbitrary request sequences and for every behaviour of malloc: every region "
+              "edn_arena_alloc returns is 8-aligned, at least the requested size, inside its block and disjoint from all others; earlier "
+              "blocks are never moved or shrunk; refused requests (incl. sizes whose rounding would wrap) change nothing. Tied to the code by "
+              "request sequences over the size classes 0,1,7,8,9, block edges, 2^20, SIZE_MAX-k (all pairs / triples, random long runs) "
+              "against the model and a geometric oracle. The reader half (everything released by the single free or before a failed read "
+              "returns; no double free; stable NUL-terminated string buffers; registry destroyed before values) is decided at run time by the "
+              "allocation ledger (--wrap=malloc,calloc,realloc,free), ASan and LeakSanitizer over accepted, rejected, extension and "
+              "large-collection documents - that part is monitoring, not proof."),
+        design_ref="DESIGN.md section 6, C15",
+        note=NOTE_COMMON + " malloc is assumed to return disjoint, 8-aligned blocks or NULL. Real frees and leaks are visible only to the run-time ledger and sanitizers (partial).",
+        technique="Lean 4 proof (allocator invariant by induction over requests) + correspondence check + allocation ledger / LeakSanitizer",
+    ),
 }
 
 
